@@ -25,6 +25,18 @@ open GoSem GoBridge Gen.C15
 /-- the translator met no construct it could not transcribe -/
 theorem nothing_unknown : unknownCount = 0 := by decide
 
+/-- **no hidden state**: no function of util/hash, util/hexa32, util/bitutil, util/iputil, hll/MurmurHash.go writes a
+    package-level variable (assignment, increment or decrement, address taken, append/copy/delete, method call on it), and
+    `stringutil.HashCode` touches none — so no result can depend on earlier calls (a cache breaks this by name) -/
+theorem no_package_state_written :
+    stateRefs.all (fun r => r.2.2.1 == "r" || (r.1 == "util/stringutil" && r.2.1 != "HashCode")) = true := by decide
+
+/-- the only package-level variables of these packages are the two constant tables -/
+theorem package_vars_tied :
+    pkgVars.lookup "util/hash" = some ["table"] ∧ pkgVars.lookup "util/hexa32" = some ["digits"]
+    ∧ pkgVars.lookup "util/bitutil" = some [] ∧ pkgVars.lookup "util/iputil" = some [] ∧ pkgVars.lookup "util/hll" = some [] := by
+  decide
+
 /-! ### tables and constants -/
 
 theorem table_tied : crcTable = Hash.table := by decide +kernel
